@@ -163,6 +163,8 @@ def _shapes_dsa(tier, prop=None):
            dict(spec="rand5", stop_cycle=3, algo_params=dict(variant="B"), sample_only=True, sample_factor=4, sample_part=1, nary=True),
            dict(spec="rand6", stop_cycle=3, algo_params=dict(variant="C", p_mode="arity"), sample_only=True, sample_factor=3, sample_part=2,
                 connected=False, policy="lifo", interleave_start=True)]
+    big.append(dict(spec="rand5", same_dom=True, max_dom=2, stop_cycle=4, algo_params=dict(variant="A"), sample_only=True, sample_factor=4,
+                    sample_part=3, policy="random", sched_seed=2))      # equal domains: values of different neighbours can be confused
     if prop == "C10" and tier == "quick":
         return [q[1], q[3], q[6], big[1]]
     q = q + big
